@@ -119,6 +119,7 @@ func stress(procs, rounds int, seed uint64) {
 		ring = ring[:0]
 	}
 	nilStart := -1
+	neverElapsed := 0
 	for i := 0; i < rounds; i++ {
 		if i%1000 == 0 {
 			fmt.Fprintf(out, "progress %d\n", i)
@@ -149,6 +150,7 @@ func stress(procs, rounds int, seed uint64) {
 		st.d.Store(int64(dur))
 		// every start follows a returned cancel or an observed elapse of the previous timer
 		ch, cancel := start(rt, ctx, r, uint64(i+1))
+		_ = neverElapsed
 		r >>= 2
 		if ch == nil {
 			nilStart = i
@@ -209,6 +211,13 @@ func stress(procs, rounds int, seed uint64) {
 		}
 		prev = h
 		ring = append(ring, h)
+		if h.waited == 2 {
+			// a timer that never elapsed costs 10 s: three of them are enough evidence, do not sit out the other rounds
+			neverElapsed++
+			if neverElapsed >= 3 {
+				break
+			}
+		}
 		if len(ring) >= 64 {
 			// keep the newest (its e2 is not known yet)
 			last := ring[len(ring)-1]
